@@ -1074,6 +1074,7 @@ int htp_connp_req_data(htp_connp_t *connp, const htp_time_t *timestamp, const vo
 
         htp_status_t rc;
         //handle gap
+        HTP_VERIF_STEP_BEGIN(connp, 0);
         if (data == NULL && len > 0) {
             //cannot switch over a function pointer in C
             if (connp->in_state == htp_connp_REQ_BODY_IDENTITY ||
@@ -1085,11 +1086,13 @@ int htp_connp_req_data(htp_connp_t *connp, const htp_time_t *timestamp, const vo
             } else {
                 // go to htp_connp_REQ_CONNECT_PROBE_DATA ?
                 htp_log(connp, HTP_LOG_MARK, HTP_LOG_ERROR, 0, "Gaps are not allowed during this state");
+                HTP_VERIF_STEP_END(connp, 0, HTP_DECLINED);
                 return HTP_STREAM_CLOSED;
             }
         } else {
             rc = connp->in_state(connp);
         }
+        HTP_VERIF_STEP_END(connp, 0, rc);
         if (rc == HTP_OK) {
             if (connp->in_status == HTP_STREAM_TUNNEL) {
                 #ifdef HTP_DEBUG
